@@ -164,8 +164,12 @@ def LRTrack.step (t : LRTrack) : LRCall → LRStep
     else if !t.inner.subject && isList then .reject   -- a list before any subject is always taken as a subject batch
     else if !allDefined then .lookup
     else
-      match t.inner.step (.naming (0 < n)) with
-      | some i => .ok { t with inner := i }
+      -- layer rules APPEND the modules of the named layers to the subject / object position
+      match t.inner.target with
+      | some true => .ok { t with inner := { t.inner with subject := t.inner.subject || decide (0 < n) } }
+      | some false =>
+        .ok { t with inner := { t.inner with object := t.inner.object || decide (0 < n),
+                                             objectAfterAnything := t.inner.objectAfterAnything || t.inner.anything } }
       | none => .reject
   | c =>
     if !t.started then .reject
